@@ -306,6 +306,9 @@ def check_array_path(rep, f, label, rows, dom, P, is_class, base, tc=None, copy_
             if b is not None and b != 'null':
                 lv = g.live.get(b)
                 if is_class and lv is not None and g.eq(lv, Lin.const(0)) is False: viol.append(('AR.4', node, f'free() of a block that still holds {lv} live element(s): they are never destroyed'))
+                elif is_class and lv is not None and g.eq(lv, Lin.const(0)) is None:
+                    w_ = g.witness_ne(rows, lv, Lin.const(0))
+                    if w_ is not None: viol.append(('AR.4', node, f'free() of a block that still holds {lv} live element(s) (e.g. {", ".join(f"{k}={v}" for k, v in sorted(w_.items()))}): they are never destroyed'))
                 if b in g.freed: viol.append(('AR.2', node, f'block {b} freed twice'))
                 g.freed.add(b)
         elif kind == 'range':
@@ -368,6 +371,7 @@ def check_array_path(rep, f, label, rows, dom, P, is_class, base, tc=None, copy_
     if memcpy_class is not None: viol.append(('AR.4', memcpy_class, COPY_MEMCPY))
     # exit state
     arr = field(P, 'this', 'm_array', dom); size = field(P, 'this', 'm_size', dom)
+    if (isinstance(arr, int) and not isinstance(arr, bool) and arr == 0) or (isinstance(arr, Lin) and arr == Lin.const(0)): arr = Ptr('null')          # `m_array = nullptr`
     if isinstance(arr, Ptr) and arr.base.startswith('param:'): adopted = True
     site = f.shortloc()
     if base.startswith('~'):
@@ -791,6 +795,13 @@ def ring_analyse(facts, rep):
                         size1 = as_lin(ctx.final('m_size'))
                         if size1 is not None:
                             dS = size1 - Lin.sym('S')
+                            if not dS.is_const() and size1.is_const() and not (ctx.elems({'destroy', 'moveout', 'assign'}) or any(p_[0] == 'range' for n_, p_ in ctx.ev)):
+                                # the size is *set* (a clear / reset): elements leave whenever the buffer held more than that
+                                st_, env_ = ctx.model_check(lambda e_: e_.get('S', 0) <= size1.c, extra=())
+                                if st_ == 'refuted':
+                                    add('RB.7', False, f'{label} {rt}: the element(s) that leave the live range are destroyed or moved out', site,
+                                        f'm_size is set to {size1.c} and no element is destroyed or moved out (e.g. a buffer of {env_.get("S")} element(s), capacity {env_.get("C")}): the elements that still hold their values are left behind outside [0, size) — '
+                                        'never destroyed, and the next insertions construct new elements over them', key=f'RB.7|{base}|leaves')
                             if dS.is_const() and dS.c < 0:
                                 gone = ctx.elems({'destroy', 'moveout'}) or [1 for n_, p_ in ctx.ev if p_[0] == 'range' and p_[1] == 'destroy']
                                 if not gone and (ctx.elems({'assign'}) or any(p_[0] == 'range' and p_[1] in ('assign', 'move') for n_, p_ in ctx.ev)): continue          # elements are shifted on this path: the one that leaves may have been moved from (judged on the path that shifts nothing)
